@@ -400,7 +400,8 @@ def run(c: Campaign, jobs: int) -> None:
     for name in gate_specs():
         args.append((shard_crash, (c.prop, c.tier, c.seed, name, True)))
         args.append((shard_crash, (c.prop, c.tier, c.seed, name, False)))
-    for name in ("signal-vs-suspend-persistent", "signal-vs-suspend-transient", "signal-vs-startstage-persistent", "signal-vs-startstage-transient", "buffered-resume-vs-second-worker"):
+    for name in ("signal-vs-suspend-persistent", "signal-vs-suspend-transient", "signal-vs-startstage-persistent", "signal-vs-startstage-transient", "buffered-resume-vs-second-worker",
+                 "signal-vs-jump-persistent", "signal-vs-jump-second-signal"):
         args.append((shard_race, (c.prop, c.tier, c.seed, name, 2 if quick else 3)))
     run_shards(c, _dispatch, args, jobs)
     c.exhaustive_parts.append("SignalStage racing the suspending RunTask result (persistent and transient): all schedules with <= 2 pre-emptions (thorough 3)")
